@@ -403,15 +403,20 @@ pub fn gen_stack_edge(rng: &mut Rng) -> Prog {
     for _ in 0..target {
         a.op(op::PC);
     }
-    let o = match rng.below(6) {
+    let o = match rng.below(8) {
         0 => op::PC,
         1 => op::DUP1 + rng.below(16) as u8,
         2 => op::PUSH0,
         3 => op::ADD,
         4 => op::SWAP1 + rng.below(16) as u8,
-        _ => op::MSIZE,
+        5 => op::MSIZE,
+        // every other instruction that pushes without popping (environment reads)
+        _ => *rng.pick(&[0x30u8, 0x32, 0x33, 0x34, 0x36, 0x38, 0x3a, 0x3d, 0x41, 0x42, 0x43, 0x44, 0x45, 0x46, 0x47, 0x48, 0x4a, 0x58, 0x59, 0x5a, 0x5f, 0x60]),
     };
     a.op(o);
+    if o == 0x60 {
+        a.op(0x01);
+    }
     a.op(op::STOP);
     Prog { code: a.finish(), calldatas: vec![vec![]], kind: "stack-edge" }
 }
@@ -432,4 +437,122 @@ pub fn random_bytes(rng: &mut Rng) -> Prog {
     let n = rng.below(80) as usize;
     let cd = rng.bytes(n);
     Prog { code, calldatas: vec![cd], kind: "random-bytes" }
+}
+
+
+/// data-moving and addressing instructions over boundary operands: offsets and sizes taken from the
+/// boundary set (2^32, 2^64, 2^128 + 1, 2^255, 2^256 - 1 ...), with non-empty calldata and a
+/// recognisable memory image, returning the first 128 bytes of memory
+pub fn gen_mem_edge(rng: &mut Rng) -> Prog {
+    let mut a = Asm::new();
+    // recognisable memory: mem[0..64] = two non-zero words
+    let mut w1 = [0xa5u8; 32];
+    w1[0] = 0x11;
+    let mut w2 = [0x5au8; 32];
+    w2[31] = 0x22;
+    push_word(&mut a, &w1);
+    a.op(op::PUSH0).op(op::MSTORE);
+    push_word(&mut a, &w2);
+    a.push(32).op(op::MSTORE);
+    let small = |rng: &mut Rng| -> [u8; 32] {
+        let mut w = [0u8; 32];
+        let v = *rng.pick(&[0u64, 1, 2, 31, 32, 33, 40, 63, 64, 65, 96, 100]);
+        w[24..].copy_from_slice(&v.to_be_bytes());
+        w
+    };
+    let edge = |rng: &mut Rng| -> [u8; 32] { if rng.chance(2, 3) { boundary_word(rng) } else { small(rng) } };
+    let mut observe_top = false;
+    match rng.below(12) {
+        0 => {
+            let (d, s, n) = (small(rng), edge(rng), small(rng));
+            push_word(&mut a, &n);
+            push_word(&mut a, &s);
+            push_word(&mut a, &d);
+            a.op(op::CALLDATACOPY);
+        }
+        1 => {
+            let (d, s, n) = (small(rng), edge(rng), small(rng));
+            push_word(&mut a, &n);
+            push_word(&mut a, &s);
+            push_word(&mut a, &d);
+            a.op(op::CODECOPY);
+        }
+        2 => {
+            let (d, s, n) = (edge(rng), edge(rng), if rng.chance(1, 2) { small(rng) } else { edge(rng) });
+            push_word(&mut a, &n);
+            push_word(&mut a, &s);
+            push_word(&mut a, &d);
+            a.op(op::MCOPY);
+        }
+        3 => {
+            push_word(&mut a, &edge(rng));
+            a.op(op::CALLDATALOAD);
+            observe_top = true;
+        }
+        4 => {
+            push_word(&mut a, &edge(rng));
+            a.op(op::MLOAD);
+            observe_top = true;
+        }
+        5 => {
+            push_word(&mut a, &boundary_word(rng));
+            push_word(&mut a, &edge(rng));
+            a.op(if rng.chance(1, 2) { op::MSTORE } else { op::MSTORE8 });
+        }
+        6 => {
+            let n = if rng.chance(1, 2) { [0u8; 32] } else { small(rng) };
+            push_word(&mut a, &n);
+            push_word(&mut a, &edge(rng));
+            a.op(op::KECCAK256);
+            observe_top = true;
+        }
+        7 => {
+            // RETURN / REVERT with edge offset and zero or small size
+            let n = if rng.chance(1, 2) { [0u8; 32] } else { small(rng) };
+            push_word(&mut a, &n);
+            push_word(&mut a, &edge(rng));
+            a.op(if rng.chance(1, 2) { op::RETURN } else { op::REVERT });
+        }
+        8 => {
+            // copy with edge size but zero... sizes beyond u32 must fail, zero size with huge offsets succeed
+            let n = if rng.chance(1, 2) { [0u8; 32] } else { edge(rng) };
+            push_word(&mut a, &n);
+            push_word(&mut a, &edge(rng));
+            push_word(&mut a, &edge(rng));
+            a.op(*rng.pick(&[op::CALLDATACOPY, op::CODECOPY, op::MCOPY]));
+        }
+        9 => {
+            push_word(&mut a, &edge(rng));
+            a.op(op::JUMP);
+        }
+        10 => {
+            // storage / transient storage with boundary keys and values
+            let (k, v) = (boundary_word(rng), boundary_word(rng));
+            let t = rng.chance(1, 2);
+            push_word(&mut a, &v);
+            push_word(&mut a, &k);
+            a.op(if t { op::TSTORE } else { op::SSTORE });
+            push_word(&mut a, &k);
+            a.op(if t { op::TLOAD } else { op::SLOAD });
+            observe_top = true;
+        }
+        _ => {
+            push_word(&mut a, &edge(rng));
+            push_word(&mut a, &edge(rng));
+            a.op(op::JUMPI);
+        }
+    }
+    if observe_top {
+        a.push(64).op(op::MSTORE);
+    }
+    a.op(op::MSIZE).push(96).op(op::MSTORE);
+    a.push(128).op(op::PUSH0).op(op::RETURN);
+    let n = 33 + rng.below(70) as usize;
+    let mut cd = rng.bytes(n);
+    for b in cd.iter_mut() {
+        if *b == 0 {
+            *b = 0x77;
+        }
+    }
+    Prog { code: a.finish(), calldatas: vec![cd], kind: "mem-edge" }
 }
